@@ -85,6 +85,12 @@ def schedules(fam):
                       [opn("c1"), sub("c1", "a"), Q, ev("a", "change", k="x", val=R("d"), **st), dict(reply("get", "d"), **st),
                        ev("d", "custom", **st), ev("d", "change", k="w", val=P("5"), **st), dict(reply("get", "e"), **st), Q, ev("d", "custom"), Q]))
     if fam == "stream":
+        # a change event that changes nothing must leave no trace: the events that follow are delivered as before, to the
+        # client that held the resource and to one that subscribes afterwards
+        out.append(SC(fam, "noopchange", {"a": Mo(x=P("1"), y=P("2"))},
+                      [opn("c1"), opn("c2"), sub("c1", "a"), Q, ev("a", "change", k="x", val=P("5")), Q, {"op": "event", "n": "a", "ev": "change", "k": "x", "noop": True}, Q,
+                       ev("a", "custom"), ev("a", "change", k="y", val=P("7")), Q, sub("c2", "a"), Q, ev("a", "change", k="x", val=P("9")), Q]))
+    if fam == "stream":
         # one change event brings a new reference (the resource has to be loaded first) together with a soft reference and
         # a data value: a legacy client must get the legacy encoding of those on this path too
         for ver in ("1.2.0", "latest"):
@@ -140,6 +146,18 @@ def schedules(fam):
                       [opn("c1"), dict(sub("c1", "p"), **stg), dict(reply("access", "p"), **stg), dict(reply("get", "p"), **stg),
                        dict(reply("get", "m"), **stg), dict(get("c1", "m"), **stg), dict(reply("access", "m"), **stg),
                        dict(reply("get", "d"), **stg), Q, ev("m", "custom"), Q]))
+        # two requests wait for the same child while a queued event of the parent removes the reference to it: the first
+        # response releases the parent's queue, the event disposes the child in the middle of its Loaded closure - the second
+        # request must still be answered
+        out.append(SC(fam, "disposeinloaded", {"p": Mo(child=R("s"), z=P("1")), "s": Mo(w=P("1"))},
+                      [opn("c1"), dict(sub("c1", "p"), **stg), dict(sub("c1", "p"), **stg), dict(reply("access", "p"), **stg), dict(reply("get", "p"), **stg),
+                       ev("p", "change", k="child", val=P("0"), **stg), dict(reply("get", "s"), **stg), Q, ev("p", "custom"), Q]))
+        # one change event refers to a resource the client holds and to one that has to be loaded; while it loads the client
+        # releases its only other path to the first: the event must then carry it
+        out.append(SC(fam, "changemixedrelease", {"h": Mo(a=P("0"), b=P("0")), "x": Mo(z=P("1")), "slow": Mo(w=P("1"))},
+                      [opn("c1"), sub("c1", "h"), sub("c1", "x"), Q,
+                       dict(ev("h", "change", k="a", val=R("x"), more={"b": {"t": "r", "v": "slow"}}), **stg), dict(unsub("c1", "x"), **stg),
+                       dict(reply("get", "slow"), **stg), Q, ev("x", "custom"), Q]))
         # a sent parent is released while another parent keeps the child; then the last delivered parent is released
         # while a third parent is still loading: its response must carry the child again
         out.append(SC(fam, "staleindirectsent", {"p1": Mo(m=R("m")), "p2": Mo(m=R("m")), "p3": Mo(m=R("m"), x=R("x")), "m": Mo(z=P("1")), "x": Mo(w=P("1"))},
@@ -247,6 +265,11 @@ def schedules(fam):
     if fam == "cache":
         out.append(S(fam, "resub", [opn("c1"), sub("c1", "a"), Q, unsub("c1", "a"), Q, {"op": "time", "ms": 3000},
                                     sub("c1", "a"), Q, unsub("c1", "a"), Q, {"op": "time", "ms": 6000}, Q, sub("c1", "a"), Q]))
+        # a system reset's re-fetch is still unanswered when the last subscriber leaves and the eviction delay runs out:
+        # the entry must be freed all the same (then, or when the answer has come)
+        out.append(S(fam, "evictwhileresetting", [opn("c1"), sub("c1", "a"), Q, {"op": "reset", "res": ["a"], "acc": [], "settle": True},
+                                                  dict(unsub("c1", "a"), settle=True), {"op": "time", "ms": 6000}, {"op": "evict", "n": "a"}, dict(reply("get", "a"), settle=True),
+                                                  {"op": "time", "ms": 6000}, Q]))
         # a resource id too long for the event subscription: the failed subscribe must not keep the entry in use
         longrid = "a." + "x" * 4100
         out.append(S(fam, "toolong", [opn("c1"), sub("c1", longrid), Q, sub("c1", longrid), Q, sub("c1", "a"), Q,
